@@ -15,12 +15,15 @@ deriving DecidableEq, Repr
 def SNum.val (x : SNum) : Rat := if x.neg then -x.mag else x.mag
 def SNum.isZero (x : SNum) : Bool := x.mag == 0
 
+/-- round to the nearest integer, ties to even (what `{:.p}` does with the exact binary value) -/
+def roundHalfEven (x : Rat) : Int :=
+  let fl := x.floor
+  let frac := x - fl
+  if frac > 1/2 then fl + 1 else if frac < 1/2 then fl else (if fl % 2 == 0 then fl else fl + 1)
+
 /-- `{:.p}` of a non-negative value -/
 def fmtFixed (q : Rat) (p : Nat) : String :=
-  let scaled := q * (10 : Rat) ^ p
-  let fl := scaled.floor
-  let frac := scaled - fl
-  let r : Int := if frac > 1/2 then fl + 1 else if frac < 1/2 then fl else (if fl % 2 == 0 then fl else fl + 1)
+  let r : Int := roundHalfEven (q * (10 : Rat) ^ p)
   let ds := toString r.toNat
   let ds := String.ofList (List.replicate (p + 1 - ds.length) '0') ++ ds
   if p == 0 then ds
@@ -64,14 +67,27 @@ def insertDesc (e : Nat × SNum) : List (Nat × SNum) → List (Nat × SNum)
 def sortDesc (l : List (Nat × SNum)) : List (Nat × SNum) :=
   l.foldl (fun acc e => insertDesc e acc) []
 
-/-- terms of `write_lincomb` from position `no` on (`first` = this is the first element of the list) -/
-def lincombAux (o : Opts) (p : Nat) : List (Nat × SNum) → Nat → Bool → String
-  | [], _, _ => ""
+/-- what `write_lincomb` emits: a term (coefficient next to the index of its variable; `lead` = no separating blank)
+    or the ellipsis that stands for a run of omitted terms -/
+inductive LTok where
+  | term (idx : Nat) (c : SNum) (lead : Bool)
+  | ell
+
+/-- tokens of `write_lincomb` from position `no` on (`firstSkip` = no ellipsis has been emitted yet) -/
+def lincombToks (o : Opts) : List (Nat × SNum) → Nat → Bool → List LTok
+  | [], _, _ => []
   | (idx, c) :: rest, no, firstSkip =>
     if rangeContains o.skipAxes no then
-      (if firstSkip then " " ++ ellipsis else "") ++ lincombAux o p rest (no+1) false
+      (if firstSkip then [LTok.ell] else []) ++ lincombToks o rest (no+1) false
     else
-      (if no == 0 then "" else " ") ++ writeFloat c p ++ " $" ++ toString idx ++ lincombAux o p rest (no+1) firstSkip
+      LTok.term idx c (no == 0) :: lincombToks o rest (no+1) firstSkip
+
+def LTok.render (p : Nat) : LTok → String
+  | .term idx c lead => (if lead then "" else " ") ++ writeFloat c p ++ " $" ++ toString idx
+  | .ell => " " ++ ellipsis
+
+def lincombAux (o : Opts) (p : Nat) (elems : List (Nat × SNum)) (no : Nat) (firstSkip : Bool) : String :=
+  String.join ((lincombToks o elems no firstSkip).map (LTok.render p))
 
 /-- `write_lincomb` -/
 def writeLincomb (o : Opts) (p : Nat) (coeffs : List SNum) : String :=
@@ -96,15 +112,28 @@ def writeInequality (o : Opts) (p : Nat) (row : List SNum) (bias : SNum) : Strin
 def writeAffcomb (o : Opts) (p : Nat) (row : List SNum) (bias : SNum) : String :=
   writeFloat bias p ++ " " ++ (if o.simplifyZero && allZero row then "" else writeLincomb o p row)
 
-/-- rows of `write_poly` / `write_func`: a newline follows every row that is not the last one of the matrix -/
-def rowsAux (o : Opts) (line : List SNum → SNum → String) (total : Nat) :
-    List (List SNum × SNum) → Nat → Bool → String
-  | [], _, _ => ""
+/-- what `write_poly` / `write_func` emit per row: the row (with "a newline follows") or the vertical ellipsis that
+    stands for a run of omitted rows -/
+inductive RTok where
+  | row (no : Nat) (r : List SNum) (b : SNum) (nl : Bool)
+  | vell
+
+def rowToks (o : Opts) (total : Nat) : List (List SNum × SNum) → Nat → Bool → List RTok
+  | [], _, _ => []
   | (row, b) :: rest, no, firstSkip =>
     if rangeContains o.skipRows no then
-      (if firstSkip then " " ++ vellipsis ++ "\n" else "") ++ rowsAux o line total rest (no+1) false
+      (if firstSkip then [RTok.vell] else []) ++ rowToks o total rest (no+1) false
     else
-      line row b ++ (if no + 1 < total then "\n" else "") ++ rowsAux o line total rest (no+1) firstSkip
+      RTok.row no row b (no + 1 < total) :: rowToks o total rest (no+1) firstSkip
+
+def RTok.render (line : List SNum → SNum → String) : RTok → String
+  | .row _ r b nl => line r b ++ (if nl then "\n" else "")
+  | .vell => " " ++ vellipsis ++ "\n"
+
+/-- rows of `write_poly` / `write_func`: a newline follows every row that is not the last one of the matrix -/
+def rowsAux (o : Opts) (line : List SNum → SNum → String) (total : Nat)
+    (rows : List (List SNum × SNum)) (no : Nat) (firstSkip : Bool) : String :=
+  String.join ((rowToks o total rows no firstSkip).map (RTok.render line))
 
 def writePoly (o : Opts) (p : Nat) (rows : List (List SNum × SNum)) : String :=
   rowsAux o (writeInequality o p) rows.length rows 0 true
@@ -136,23 +165,30 @@ def displayTree (nodes : List (ANode SAff)) : String :=
       writeNode nd.isleaf nd.val 2 ++ "\n" ++
     (if nd.children.any Option.isSome then "children: " ++ writeChildren nd.children ++ "\n" else "")))
 
-/-- `Display for Dot` with the default attributes of `Dot::from` -/
-def dotTree (nodes : List (ANode SAff)) : String :=
-  "digraph afftree {\nbgcolor=transparent;\nconcentrate=true;\nmargin=0;\n" ++
-  String.join (nodes.map (fun nd =>
-    "n" ++ toString nd.idx ++ " [label=\"" ++
-      (if nd.isleaf then writeFunc defaultFunc 2 nd.val.rows ++ "\", shape=box];\n"
-       else writePoly defaultPoly 2 nd.val.rows ++ "\", shape=ellipse];\n"))) ++
-  String.join (nodes.filterMap (fun nd =>
+/-- the edge statements of the DOT export: `(parent, child, label)`, one per node whose parent is in the arena -/
+def dotEdges {β : Type} (nodes : List (ANode β)) : List (Nat × Nat × Nat) :=
+  nodes.filterMap (fun nd =>
     match nd.parent with
     | none => none
     | some p =>
       match nodes.find? (fun x => x.idx == p) with
       | none => none
-      | some pn =>
-        let label := (pn.children.findIdx (fun c => c == some nd.idx))
-        some ("n" ++ toString p ++ " -> n" ++ toString nd.idx ++ " [label=" ++ toString label ++ ", " ++
-          (if label == 0 then "style=dashed" else "style=solid") ++ "];\n"))) ++
+      | some pn => some (p, nd.idx, pn.children.findIdx (fun c => c == some nd.idx)))
+
+def dotNodeStmt (nd : ANode SAff) : String :=
+  "n" ++ toString nd.idx ++ " [label=\"" ++
+    (if nd.isleaf then writeFunc defaultFunc 2 nd.val.rows ++ "\", shape=box];\n"
+     else writePoly defaultPoly 2 nd.val.rows ++ "\", shape=ellipse];\n")
+
+def dotEdgeStmt (e : Nat × Nat × Nat) : String :=
+  "n" ++ toString e.1 ++ " -> n" ++ toString e.2.1 ++ " [label=" ++ toString e.2.2 ++ ", " ++
+    (if e.2.2 == 0 then "style=dashed" else "style=solid") ++ "];\n"
+
+/-- `Display for Dot` with the default attributes of `Dot::from`: one statement per node, then one per edge -/
+def dotTree (nodes : List (ANode SAff)) : String :=
+  "digraph afftree {\nbgcolor=transparent;\nconcentrate=true;\nmargin=0;\n" ++
+  String.join (nodes.map dotNodeStmt) ++
+  String.join ((dotEdges nodes).map dotEdgeStmt) ++
   "}"
 
 end AV.Fmt
